@@ -4,7 +4,7 @@
    process after the task is done.  Quantifiers: every payload, pipe capacity, slot count, schedule. *)
 From Coq Require Import List Arith Lia Bool String.
 Import ListNotations.
-From SP Require Import Skel Gen Expected Stream.
+From SP Require Import Skel Gen Expected Stream StreamLive.
 
 (* T1: the FIFO is created and forwarded before the task is spawned, removed after the task's Done; a skipped task
    drains the FIFOs of its streaming inputs *)
@@ -23,6 +23,19 @@ Proof. vm_compute. reflexivity. Qed.
 Theorem C17_bytes : forall (c : cfg) (l : list act) (s : st),
   run c (init c) l = Some s -> cp s = CDone -> outfile s = Some (payload c).
 Proof. exact Stream.C17_bytes. Qed.
+
+(* every execution completes: with at least two slots (the property's guard: >= 2n for n streamed items) and a pipe of
+   capacity >= 1, no reachable state is stuck before both tasks are done and the pipe is removed ... *)
+Theorem C17_progress : forall (c : cfg) (l : list act) (s : st),
+  2 <= slots c -> 1 <= pipecap c ->
+  run c (init c) l = Some s -> fifo s = true \/ pp s <> PDone \/ cp s <> CDone ->
+  exists a, step c s a <> None.
+Proof. exact StreamLive.stream_progress. Qed.
+
+(* ... and every execution is finite: each action strictly decreases a natural-number measure *)
+Theorem C17_terminates : forall (c : cfg) (s : st) (a : act) (s' : st),
+  step c s a = Some s' -> measure c s' < measure c s.
+Proof. exact StreamLive.stream_step_decreases. Qed.
 
 (* non-vacuity and the "no trace" part on a complete run: payload longer than the pipe, two slots; at the end both are
    done, the pipe is removed, all slots are free *)
@@ -51,6 +64,8 @@ Proof. exact Stream.C17_rerun_refuted. Qed.
 
 Print Assumptions C17_code_conforms.
 Print Assumptions C17_bytes.
+Print Assumptions C17_progress.
+Print Assumptions C17_terminates.
 Print Assumptions C17_run_ok.
 Print Assumptions C17_one_slot_refuted.
 Print Assumptions C17_audit_race_refuted.
